@@ -986,4 +986,65 @@ theorem dv_quiescent_needs_last_flag :
     (c.2.all DVT.finished = true ∧ c.1.d = 15 ∧ f c.1.val = 10) := by
   decide
 
+/-- A forced replay is a run of the system: every configuration `runThread` produces is reachable. -/
+theorem runThread_reach {σ τ : Type} (S : Sys σ τ) (stop : τ → Bool) (i fuel : Nat) (c : Cfg σ τ) :
+    Reach S c (runThread S stop i fuel c) := by
+  induction fuel generalizing c with
+  | zero => exact Reach.refl _
+  | succ fuel ih =>
+    obtain ⟨s, ts⟩ := c
+    simp only [runThread]
+    cases hi : ts[i]? with
+    | none => exact Reach.refl _
+    | some t =>
+      simp only
+      split
+      · exact Reach.refl _
+      · cases hj : (S.step s t)[0]? with
+        | none => exact Reach.refl _
+        | some st =>
+          obtain ⟨s', t'⟩ := st
+          simp only
+          have h1 : runSched S (s, ts) [(i, 0)] = (s', ts.set i t') := by
+            simp [runSched, hi, hj]
+          have := runSched_reach S (s, ts) [(i, 0)]
+          rw [h1] at this
+          exact Reach.trans this (ih _)
+
+theorem dvzPark_reach (S : Sys DVS DVT) (m : Nat) (c : Cfg DVS DVT) : Reach S c (dvzPark S m c) := by
+  induction m generalizing c with
+  | zero => exact Reach.refl _
+  | succ m ih =>
+    simp only [dvzPark]
+    split
+    · exact runThread_reach _ _ _ _ _
+    · exact Reach.trans (Reach.trans (runThread_reach _ _ _ _ _) (runThread_reach _ _ _ _ _)) (ih _)
+
+theorem dvwPark_reach (S : Sys DVS DVT) (k : Nat) (c : Cfg DVS DVT) : Reach S c (dvwPark S k c) := by
+  induction k generalizing c with
+  | zero => exact Reach.refl _
+  | succ k ih =>
+    simp only [dvwPark]
+    split
+    · exact Reach.trans (runThread_reach _ _ _ _ _) (runThread_reach _ _ _ _ _)
+    · exact Reach.trans (Reach.trans (runThread_reach _ _ _ _ _) (runThread_reach _ _ _ _ _)) (ih _)
+
+theorem dvwReplay_reach (n : Nat) (f : (Nat → Int) → Int) (trig : Nat → Bool) (inits : List Int) (k : Nat)
+    (writes : List (Nat × Int)) :
+    Reach (dvSys n f trig) (DVS.fresh (fun i => inits.getD i 0) 0, [DVT.cIdle (List.range n), DVT.idle writes])
+      (dvwReplay n f trig inits k writes) := by
+  unfold dvwReplay
+  exact Reach.trans (Reach.trans (Reach.trans (dvwPark_reach _ _ _) (runThread_reach _ _ _ _ _)) (runThread_reach _ _ _ _ _))
+    (runThread_reach _ _ _ _ _)
+
+/-- The configuration the driver prints for a `dvz` line is a reachable configuration of `dvSys` from the initial one
+(constructor + one writer), so whenever all threads are finished in it, `C14_derived_var` applies to it. -/
+theorem dvzReplay_reach (n : Nat) (f : (Nat → Int) → Int) (trig : Nat → Bool) (inits : List Int) (m : Nat)
+    (writes : List (Nat × Int)) :
+    Reach (dvSys n f trig) (DVS.fresh (fun i => inits.getD i 0) 0, [DVT.cIdle (List.range n), DVT.idle writes])
+      (dvzReplay n f trig inits m writes) := by
+  unfold dvzReplay
+  exact Reach.trans (Reach.trans (Reach.trans (dvzPark_reach _ _ _) (runThread_reach _ _ _ _ _)) (runThread_reach _ _ _ _ _))
+    (runThread_reach _ _ _ _ _)
+
 end Hive.Derived
